@@ -1115,7 +1115,7 @@ impl SimdLz77Compressor {
         let mut reader = BitReader::new(compressed);
         let mut matches = Vec::new();
 
-        while reader.has_bits(3) { // Need at least 3 bits for compression type
+        while reader.has_bits(8) { // shortest match is 8 bits; up to 7 trailing bits are byte padding
             let (pa_zip_match, _) = decode_match(&mut reader)?;
             matches.push(pa_zip_match);
         }
